@@ -82,6 +82,10 @@ def judgeNew (wf : Workflow) (ts : List Target) (o : Obs) : Option String :=
     else some "-"
   else some "-"
 
+/-- The requests the property speaks about (besides the DEPLOY inside NewEnvironment): those whose body commands the tasks. -/
+def commands (e : Ev) : Bool :=
+  e = .CONFIGURE || e = .START_ACTIVITY || e = .STOP_ACTIVITY || e = .RESET
+
 /-- Walk the observed requests along the scenario, keeping the books the property needs (which tasks are alive,
     which state the environment was last reported in). -/
 def judgeSteps (st : St) (tasks : List Task) : List SStep → List Obs → Option String
@@ -89,6 +93,7 @@ def judgeSteps (st : St) (tasks : List Task) : List SStep → List Obs → Optio
   | _, [] => none
   | .die outs :: rest, os => judgeSteps st (afterCommand tasks outs) rest os
   | .ctl e outs _ :: rest, o :: os =>
+    if !commands e then none else
     match dst? e st with
     | none => none          -- not a request the property speaks about
     | some d =>
